@@ -113,7 +113,7 @@ var propOverrides = map[string]func(*propCfg){
 	"C02": func(c *propCfg) { c.quickRuns, c.quickSecs = 1500, 100 },
 	"C39": func(c *propCfg) { c.quickRuns, c.quickSecs = 800, 90 },
 	"C07": func(c *propCfg) { c.quickRuns, c.quickSecs = 700, 110 },
-	"C12": func(c *propCfg) { c.quickRuns, c.quickSecs, c.wallLimit = 400, 120, 60 * time.Second },
+	"C12": func(c *propCfg) { c.quickRuns, c.quickSecs, c.wallLimit = 400, 120, 60*time.Second },
 	"C13": func(c *propCfg) { c.quickRuns, c.quickSecs = 600, 110 },
 	"C14": func(c *propCfg) { c.quickRuns, c.quickSecs = 1200, 110 },
 	"C21": func(c *propCfg) { c.quickRuns, c.quickSecs = 1500, 100 },
